@@ -125,20 +125,45 @@ fn main() {
             let verif_dir = std::path::PathBuf::from(
                 arg_value(&args, "--verif-dir").unwrap_or_else(|| "/verif".into()),
             );
-            let code = batch::check_cluster(&batch::CheckArgs {
-                property,
+            let check_args = batch::CheckArgs {
+                property: property.clone(),
                 tier,
                 seed,
                 jobs,
                 runs_override: arg_value(&args, "--runs").and_then(|s| s.parse().ok()),
                 verif_dir,
-            });
+            };
+            let p = property.as_str();
+            let code = if engines::auth::PROPERTIES.contains(&p) {
+                engines::auth::check(&check_args)
+            } else if engines::stream::PROPERTIES.contains(&p) {
+                engines::stream::check(&check_args)
+            } else if engines::alloc::PROPERTIES.contains(&p) {
+                engines::alloc::check(&check_args)
+            } else if engines::autoalloc::PROPERTIES.contains(&p) {
+                engines::autoalloc::check(&check_args)
+            } else {
+                batch::check_cluster(&check_args)
+            };
             std::process::exit(code);
         }
         "replay" => {
             let path = std::path::PathBuf::from(args.get(2).expect("replay file"));
             let verbose = args.iter().any(|a| a == "-v");
-            std::process::exit(batch::replay_file(&path, verbose));
+            // the engine is recorded in the file
+            let engine = std::fs::read_to_string(&path)
+                .ok()
+                .and_then(|t| serde_json::from_str::<serde_json::Value>(&t).ok())
+                .and_then(|v| v.get("engine").and_then(|e| e.as_str().map(|s| s.to_string())))
+                .unwrap_or_else(|| "cluster".to_string());
+            let code = match engine.as_str() {
+                "auth" => engines::auth::replay(&path, verbose),
+                "stream" => engines::stream::replay(&path, verbose),
+                "alloc" => engines::alloc::replay(&path, verbose),
+                "autoalloc" => engines::autoalloc::replay(&path, verbose),
+                _ => batch::replay_file(&path, verbose),
+            };
+            std::process::exit(code);
         }
         "shrink" => {
             // hqsim shrink --seed S --profile P --target "C08 oracle@key" [--out file]
